@@ -12,7 +12,7 @@ SEMANTIC = ('postcondition not satisfied', 'precondition not satisfied', 'assert
             'possible arithmetic underflow/overflow', 'possible division by zero', 'index out of bounds',
             'possible bit shift underflow/overflow', 'unreachable', 'recommendation not met', 'decreases not satisfied',
             'loop invariant', 'might not be', 'possible', 'failed', 'not satisfied', 'could not prove termination',
-            'cannot show', 'unable to prove', 'not met', 'value may be out of range', 'call to', 'panic')
+            'cannot show', 'unable to prove', 'not met', 'fails to satisfy', 'value may be out of range', 'call to', 'panic')
 RESOURCE = ('Resource limit', 'rlimit', 'timed out', 'timeout', 'solver')
 
 
